@@ -13,17 +13,18 @@ import (
 // C06 — a Condition holds exactly what it accepted, and validity gates its rendering (Engine A).
 
 type condInst struct {
-	c      stackage.Condition
-	live   bool // constructed (Cond or Init)
-	kw     string
-	op     stackage.Operator
-	ex     any
-	nnest  bool
-	nspad  bool
-	paren  bool
-	enc    [][]string
-	err    error // nil, or a specific error; ctorErr marks "some error recorded by Cond"
-	ctorEr bool
+	pending []string // discrepancies noticed while an operation ran (reported by Apply)
+	c       stackage.Condition
+	live    bool // constructed (Cond or Init)
+	kw      string
+	op      stackage.Operator
+	ex      any
+	nnest   bool
+	nspad   bool
+	paren   bool
+	enc     [][]string
+	err     error // nil, or a specific error; ctorErr marks "some error recorded by Cond"
+	ctorEr  bool
 }
 
 var errUser = errors.New("user error")
@@ -176,8 +177,23 @@ func c06Ops() []condOp {
 		}
 	}
 	ops = append(ops, condOp{"Init()", func(*condInst) bool { return true }, func(in *condInst) {
+		// a copy of the handle made earlier (what a Stack holds after Push, what another variable
+		// holds after assignment) is a different instance from now on: Init gives the variable a new
+		// one and must leave the old one alone
+		earlier := in.c
+		var before string
+		if in.live {
+			before = fmt.Sprintf("%q %v %v %v", earlier.Keyword(), earlier.Operator(), earlier.Expression() != nil, earlier.Err())
+		}
 		in.c.Init()
+		if in.live {
+			if after := fmt.Sprintf("%q %v %v %v", earlier.Keyword(), earlier.Operator(), earlier.Expression() != nil, earlier.Err()); after != before {
+				in.pending = append(in.pending, "earlier-copy-changed:Init\x00Init() on the variable changed an earlier copy of the Condition (keyword, operator, has-expression, Err): before "+before+" after "+after)
+			}
+		}
+		pend := in.pending
 		reset(in)
+		in.pending = pend
 	}})
 	for _, kw := range c06Keywords() {
 		kw := kw
@@ -242,10 +258,12 @@ func c06Machine(c *Ctx) *Machine[*condInst] {
 			prevEx := in.ex
 			ops[i].run(in)
 			if !check {
+				in.pending = nil
 				return nil
 			}
 			cls := opClass(ops[i].name)
-			var out []string
+			out := in.pending
+			in.pending = nil
 			bad := func(k, f string, a ...any) { out = append(out, k+"\x00"+fmt.Sprintf(f, a...)) }
 			cd := in.c
 			if got := cd.Keyword(); got != in.kw {
@@ -304,6 +322,7 @@ func c06Machine(c *Ctx) *Machine[*condInst] {
 			c.Outcome(fmt.Sprintf("%v|%s", verr == nil, str))
 			return out
 		},
+		Observe: func(in *condInst) { observeAll(in.c) },
 		Key: func(in *condInst) string {
 			if !in.live {
 				return "blank"
@@ -326,6 +345,6 @@ func init() {
 	}, Replay: func(c *Ctx, raw json.RawMessage) {
 		var hc histCase
 		json.Unmarshal(raw, &hc)
-		replayHistory(c, c06Machine(c), hc.History)
+		replayHistory(c, c06Machine(c), hc.History, hc.Observed)
 	}})
 }
